@@ -805,6 +805,25 @@ class _ArrayBase(_InstBase):
             toks.append(lean_sram(bw, self.pbits, addr, w, d, ro, init))
             toks.append("1 %d %d" % page if page is not None else "0 0 0")
         self.lean_open = "array " + " ".join(map(str, toks))
+        glue = getattr(self, "glue", None)
+        if glue is not None:
+            # (kind, [(aw, dw) per master], (slave aw, slave dw)): the model applies the interface widths of the glue
+            kind, mws, sw = glue
+            head = [1 if kind == "shared" else 0, len(mws)] + [x for w in mws for x in w] + list(sw)
+            scan = getattr(self, "scan_desc", None)
+            if scan is not None:
+                # the bank array itself is computed by the model's `scan` from the objects' descriptions
+                ot = [0 if ordering == "big" else 1, self.pbits, len(scan)]
+                for (loc, regs, mems, consts) in scan:
+                    ot.append("%d %s" % (loc, lean_regs(regs)))
+                    ot.append(len(mems))
+                    for (w, d, ro, mloc, init) in mems:
+                        init = list(init or [])
+                        ot.append("%d %d %d %d %d %s" % (w, d, int(ro), mloc, len(init), " ".join(map(str, init))))
+                    ot.append("%d %s" % (len(consts), " ".join(map(str, consts))))
+                self.lean_open = "sarray " + " ".join(map(str, head + ot))
+            else:
+                self.lean_open = "garray " + " ".join(map(str, head + toks[1:]))
         self.all_regs = [r for (_, regs) in self.bank_desc for r in regs]
         assert len(self.all_regs) == len(self.ports)
         self.qual = [None]
@@ -853,6 +872,13 @@ class _ArrayBase(_InstBase):
                 devl.append(tuple(l))
         self.alphabet = [m + tuple(itertools.chain(*d)) for m in ml for d in devl]
         self.inputs = self.outputs = None
+        # directed prefix for mode B: every populated word (and the unmapped / unpopulated ones listed above) is
+        # written once with a non-zero value and read back by master 0, the other masters idle
+        self.script = []
+        idle = (0, 0, 0, 0) * (self.nmasters - 1) + tuple(itertools.chain(*nodev))
+        for k, a in enumerate(adrs):
+            self.script.append((a, 0, 1, (data_values[0] ^ (k * 0x0101010101)) & dmask or 1) + idle)
+            self.script.append((a, 1, 0, 0) + idle)
 
     def _apply(self, letter):
         n = self.netlist
@@ -886,6 +912,8 @@ class _ArrayBase(_InstBase):
         return ArrayMonitor(self)
 
     def gen(self, rng, t):
+        if t < len(self.script):
+            return self.script[t]
         dmask = (1 << self.bw) - 1
         letter = []
         active = rng.randrange(self.nmasters)
@@ -925,9 +953,11 @@ class ArrayInst(_ArrayBase):
 
     def __init__(self, name, periphs, bank_addr, mem_addr, bw=8, ordering="big", paging=0x800, aw=14, nmasters=1,
                  data_values=(0xA5A5A5A5A5, 0x5A5A5A5A5A), dev_values=(0x3C3C3C3C3C,), m1_letters=None,
-                 style="plain", child=0, max_adrs=None):
+                 style="plain", child=0, max_adrs=None, shared=None, via_scan=False, master_aw=None):
         from migen import Memory
         self.name, self.bw, self.aw, self.nmasters = name, bw, aw, nmasters
+        shared = (nmasters > 1) if shared is None else shared
+        master_aw = aw if master_aw is None else master_aw
         self.ordering = ordering
         self.pbits = _log2(paging // 4)
 
@@ -960,19 +990,24 @@ class ArrayInst(_ArrayBase):
             return mem_addr[mems_by_id[id(memory)]]
         self.array = _csr_bus.CSRBankArray(src, address_map, data_width=bw, address_width=aw, paging=paging,
                                            ordering=ordering)
-        self.masters = [_csr_bus.Interface(data_width=bw, address_width=aw) for _ in range(nmasters)]
+        self.masters = [_csr_bus.Interface(data_width=bw, address_width=master_aw) for _ in range(nmasters)]
         top = Module()
         top.submodules += self.array
-        if nmasters == 1:
+        if not shared:
+            assert nmasters == 1
             top.submodules += _csr_bus.Interconnect(self.masters[0], self.array.get_buses())
         else:
             top.submodules += _csr_bus.InterconnectShared(self.masters, self.array.get_buses())
+        if via_scan or shared and nmasters == 1 or master_aw != aw or aw > 14:
+            self.glue = ("shared" if shared else "direct", [(master_aw, bw)] * nmasters, (aw, bw))
         self.netlist = Netlist(top)
         self.drive_buses = [[m] for m in self.masters]
         self.read_buses = [[m] for m in self.masters]
         # ---- expected structure, from the parameters
         sram_by_mem = {id(memory): mmap for (nm, memory, mapaddr, mmap) in self.array.srams}
         self.bank_desc, self.win_desc, self.ports = [], [], []
+        self.structure_notes = []
+        scan_desc = []
         for pname, regs, mems in sorted(periphs, key=lambda x: x[0]):
             objs, mobjs = built[pname]
             if style == "autocsr":
@@ -989,24 +1024,37 @@ class ArrayInst(_ArrayBase):
                     pr = Reg(STORAGE, pb, name="%s_mem%d_page" % (pname, mi))
                     mmap = sram_by_mem.get(id(mobjs[mi]))
                     if mmap is None or mmap._page is None:
-                        raise InstanceError("instance %s: memory %s/%d needs a page register but the array built none" % (name, pname, mi))
-                    obj_of[id(pr)] = mmap._page
+                        # observed as a register that never reacts (the monitors report the first access to it)
+                        self.structure_notes.append("memory %s/%d needs a page register but the array built none" % (pname, mi))
+                        obj_of[id(pr)] = _csr.CSRStorage(pb, name="%s_mem%d_page_missing" % (pname, mi))
+                    else:
+                        obj_of[id(pr)] = mmap._page
                     page_regs.append(pr)
                     page = (len(self.bank_desc), len(placed) + len(page_regs) - 1)
                 self.win_desc.append((mem_addr[(pname, mi)], w, d, ro_eff, list(init or []), page))
             allregs = placed + page_regs
+            scan_desc.append((bank_addr.get(pname, 0), list(placed),
+                              [(w, d, (ro if style == "plain" else False), mem_addr[(pname, mi)], init)
+                               for mi, (w, d, ro, init) in enumerate(mems)], []))
             if allregs:
-                # reserved fillers are created by the real gatherer: fetch them from the real bank by position
+                # The registers are bound to the objects the harness created (by identity), whatever bank the array put
+                # them into: a register the array dropped or displaced is then observed as one that does not react at
+                # its address.  Only the `reserved` fillers are created by the real gatherer: fetched by position.
                 real = next((csrs for (nm, csrs, mapaddr, rmap) in self.array.banks if nm == pname), None)
                 if real is None or len(real) != len(allregs):
-                    raise InstanceError("instance %s: bank %s has %s registers, %d expected" % (
-                        name, pname, None if real is None else len(real), len(allregs)))
+                    self.structure_notes.append("bank %s has %s registers, %d expected" % (
+                        pname, None if real is None else len(real), len(allregs)))
                 for k, r in enumerate(allregs):
                     o = obj_of.get(id(r))
                     if o is None:
-                        o = real[k]                                  # a `reserved` CSR
+                        if real is not None and k < len(real) and isinstance(real[k], _csr.CSR) and real[k].size == 1:
+                            o = real[k]                              # a `reserved` CSR
+                        else:
+                            o = _csr.CSR(1, name="reserved_missing%d" % k)
                     self.ports.append(RegPorts(r, o))
                 self.bank_desc.append((bank_addr[pname], allregs))
+        if via_scan:
+            self.scan_desc = scan_desc
         # windows in the order the array created them = order of the model's `srams`; the page link uses bank indexes
         # computed above, window order = scan order (sorted names, memories in declaration order): same as win_desc
         self._describe(data_values, dev_values, m1_letters, max_adrs)
@@ -1047,6 +1095,120 @@ class SocArrayInst(_ArrayBase):
             regs = [spec_of(c) for c in csrs]
             self.bank_desc.append((soc.csr.locs[pname], regs))
             self.ports += [RegPorts(r, c) for r, c in zip(regs, csrs)]
+        self._describe(data_values, dev_values, None, max_adrs)
+
+
+class SocGlueInst(_ArrayBase):
+    """A small real SoC *with its CSR glue*: `SoCMini(csr_address_width=aw, csr_paging=.., csr_data_width=..)` plus
+    user peripherals at fixed CSR locations (`csr_map`, the way users pin locations), finalized; simulated are the
+    SoC's own `csr_bankarray` AND `csr_interconnect` (`InterconnectShared` over `soc.csr.masters`), driven at the
+    master interfaces.  Everything the model and the monitors are told (widths, paging, locations, register sets of the
+    user peripherals) comes from the constructor parameters; ctrl/timer0 register sets are harvested from the cores.
+      periphs: [(name, location, [Reg], [(width, depth, init, location)])]"""
+
+    def __init__(self, name, bw=8, paging=0x800, ordering="big", aw=14, periphs=(), nmasters=1, with_timer=True,
+                 data_values=(0xA5A5A5A5A5, 0x5A5A5A5A5A), dev_values=(0x3C3C3C3C3C,), max_adrs=None):
+        from migen import Memory
+        from litex.gen import LiteXModule
+        from litex.soc.integration.soc_core import SoCMini
+        from litex.build.sim.platform import SimPlatform
+        from litex.build.generic_platform import Pins
+        self.name, self.bw, self.aw, self.nmasters, self.ordering = name, bw, aw, nmasters, ordering
+        self.pbits = _log2(paging // 4)
+        fixed = {}
+        for pname, loc, regs, mems in periphs:
+            fixed[pname] = loc
+            for mi, (w, d, init, mloc) in enumerate(mems):
+                fixed["%s_mem%d" % (pname, mi)] = mloc
+
+        class _SoC(SoCMini):
+            csr_map = dict(fixed)
+
+        class _P(LiteXModule, _csr.AutoCSR):
+            pass
+        plat = SimPlatform("SIM", [("sys_clk", 0, Pins(1)), ("sys_rst", 0, Pins(1))])
+        soc = _SoC(plat, 1e6, csr_data_width=bw, csr_paging=paging, csr_ordering=ordering, csr_address_width=aw,
+                   with_timer=with_timer, with_uart=False)
+        built = {}
+        for pname, loc, regs, mems in periphs:
+            mod = _P()
+            objs = []
+            for k, r in enumerate(regs):
+                o = build_reg(r, r.name or "r%d" % k)
+                setattr(mod, "r%02d" % k, o)
+                objs.append(o)
+            mobjs = []
+            for mi, (w, d, init, mloc) in enumerate(mems):
+                m = Memory(w, d, init=init, name="mem%d" % mi)
+                setattr(mod, "mem%d" % mi, m)
+                mobjs.append(m)
+            setattr(soc, pname, mod)
+            built[pname] = (objs, mobjs)
+        for k in range(1, nmasters):
+            soc.csr.add_master("extra%d" % k, _csr_bus.Interface(data_width=bw, address_width=aw))
+        soc.finalize()
+        self.soc = soc
+        ba = soc.csr_bankarray
+        self.netlist = Netlist(ba._fragment + soc.csr_interconnect._fragment)
+        self.masters = list(soc.csr.masters.values())
+        if len(self.masters) != nmasters:
+            raise InstanceError("instance %s: the SoC has %d CSR masters, %d expected" % (name, len(self.masters), nmasters))
+        self.drive_buses = [[m] for m in self.masters]
+        self.read_buses = [[m] for m in self.masters]
+        self.glue = ("shared", [(aw, bw)] * nmasters, (aw, bw))
+        # ---- expected structure, from the parameters: locations not pinned are handed out first-free in creation
+        # order (ctrl, then timer0)
+        n_locs = (4 << aw) // paging
+        free = [n for n in range(n_locs) if n not in fixed.values()]
+        cores = ["ctrl"] + (["timer0"] if with_timer else [])
+        loc_of = dict(fixed)
+        for cname in cores:
+            loc_of[cname] = free.pop(0)
+        sram_by_mem = {id(memory): mmap for (nm, memory, mapaddr, mmap) in ba.srams}
+        self.bank_desc, self.win_desc, self.ports = [], [], []
+        self.structure_notes = []
+        self.scan_desc = []
+        byname = {p[0]: p for p in periphs}
+        for oname in sorted(list(byname) + cores):
+            if oname in byname:
+                _, loc, regs, mems = byname[oname]
+                objs, mobjs = built[oname]
+                placed = ref_sort(regs)
+                obj_of = {id(r): o for r, o in zip(regs, objs)}
+            else:
+                core = getattr(soc, oname)
+                csrs = core.get_csrs(sort=True)
+                placed = [spec_of(c) for c in csrs]
+                obj_of = {id(r): o for r, o in zip(placed, csrs)}
+                mems, mobjs = [], []
+            page_regs = []
+            for mi, (w, d, init, mloc) in enumerate(mems):
+                pb = ref_page_bits(w, d, bw, paging)
+                page = None
+                if pb:
+                    pr = Reg(STORAGE, pb, name="%s_mem%d_page" % (oname, mi))
+                    mmap = sram_by_mem.get(id(mobjs[mi]))
+                    if mmap is None or mmap._page is None:
+                        self.structure_notes.append("memory %s/%d needs a page register but the array built none" % (oname, mi))
+                        obj_of[id(pr)] = _csr.CSRStorage(pb, name="%s_mem%d_page_missing" % (oname, mi))
+                    else:
+                        obj_of[id(pr)] = mmap._page
+                    page_regs.append(pr)
+                    page = (len(self.bank_desc), len(placed) + len(page_regs) - 1)
+                self.win_desc.append((mloc, w, d, False, list(init or []), page))
+            self.scan_desc.append((loc_of[oname], list(placed), [(w, d, False, mloc, init) for (w, d, init, mloc) in mems], []))
+            allregs = placed + page_regs
+            if allregs:
+                real = next((csrs for (nm, csrs, mapaddr, rmap) in ba.banks if nm == oname), None)
+                for k, r in enumerate(allregs):
+                    o = obj_of.get(id(r))
+                    if o is None:
+                        if real is not None and k < len(real) and isinstance(real[k], _csr.CSR) and real[k].size == 1:
+                            o = real[k]
+                        else:
+                            o = _csr.CSR(1, name="reserved_missing%d" % k)
+                    self.ports.append(RegPorts(r, o))
+                self.bank_desc.append((loc_of[oname], allregs))
         self._describe(data_values, dev_values, None, max_adrs)
 
 
